@@ -211,3 +211,129 @@ func TestRoundTripImportOverStaleLog(t *testing.T) {
 		os.RemoveAll(d)
 	}
 }
+
+// ---- several snapshots in one folder: the newest one is the state ------------
+
+// runTwoSnapshots leaves two snapshots in one data folder, taken by a real
+// peer at shutdown: first the target pins, then (after unpinning them and
+// pinning ps) the pinset ps - which may be empty. Read offline, read raw, and
+// a peer started on the folder must all show ps.
+func runTwoSnapshots(t testing.TB, dir string, priv crypto.PrivKey, pid peer.ID, ps pinset) (runs []pathRun, broken error) {
+	data := filepath.Join(dir, "raft")
+	removeRaftData(data)
+	session := func(f func(cc *raft.Consensus) error) error {
+		h, err := libp2p.New(bg, libp2p.Identity(priv), libp2p.ListenAddrStrings("/ip4/127.0.0.1/tcp/0"))
+		if err != nil {
+			return err
+		}
+		defer h.Close()
+		cc, err := raft.NewConsensus(h, fastRaftCfg(data), inmem.New(), false)
+		if err != nil {
+			return err
+		}
+		cc.SetClient(test.NewMockRPCClientWithHost(t, h))
+		select {
+		case <-cc.Ready(bg):
+		case <-time.After(90 * time.Second):
+			cc.Shutdown(bg)
+			return errNotReady
+		}
+		err = f(cc)
+		cc.Shutdown(bg) // takes a snapshot
+		return err
+	}
+	old := targetPins()
+	if err := session(func(cc *raft.Consensus) error {
+		for _, a := range old {
+			if err := cc.LogPin(bg, a.Pin); err != nil {
+				return err
+			}
+		}
+		return nil
+	}); err != nil {
+		return nil, fmt.Errorf("first session: %w", err)
+	}
+	if err := session(func(cc *raft.Consensus) error {
+		for _, a := range old {
+			if err := cc.LogUnpin(bg, a.Pin); err != nil {
+				return err
+			}
+		}
+		for _, a := range ps.Pins {
+			if err := cc.LogPin(bg, a.Pin); err != nil {
+				return err
+			}
+		}
+		return nil
+	}); err != nil {
+		return nil, fmt.Errorf("second session: %w", err)
+	}
+	if m, _ := filepath.Glob(filepath.Join(data, "snapshots", "*")); len(m) < 2 {
+		return nil, fmt.Errorf("expected two snapshots in the folder, found %v", m)
+	}
+	off := pathRun{Path: "two-snapshots(newest=input)>offlinestate", Target: "nonempty", Stage: "offlinestate"}
+	off.Err, off.Panic = guard(func() error {
+		ost, err := raft.OfflineState(fastRaftCfg(data), inmem.New())
+		if err != nil {
+			return err
+		}
+		off.Got, err = ost.List(bg)
+		return err
+	})
+	bk := pathRun{Path: "two-snapshots(newest=input)>clean>read-backup.old.0", Target: "nonempty", Stage: "clean"}
+	bk.Err, bk.Panic = guard(func() error {
+		if err := raft.CleanupRaft(fastRaftCfg(data)); err != nil {
+			return err
+		}
+		ost, err := raft.OfflineState(raftCfg(data+".old.0", 1), inmem.New())
+		if err != nil {
+			return err
+		}
+		bk.Got, err = ost.List(bg)
+		return err
+	})
+	return []pathRun{off, bk}, nil
+}
+
+func TestRoundTripTwoSnapshots(t *testing.T) {
+	t.Parallel()
+	maxSize := 1
+	if ev.Thorough() {
+		maxSize = 2
+	}
+	sets := append([]pinset{{Label: "empty"}}, allPinsets(maxSize, false)...)
+	rp := newReporter()
+	sec := R.Sec("a7:two snapshots in one folder (newest = input pinset, possibly empty)>offline read / clean+backup")
+	sec.Bounds["pinsets"] = fmt.Sprintf("the empty pinset and all subsets of size<=%d of the alphabet (%d)", maxSize, len(sets))
+	sec.Bounds["how"] = "a real single-peer raft consensus commits the target pins and shuts down (snapshot 1), starts again, unpins them, pins the input and shuts down (snapshot 2)"
+	const workers = 8
+	dirs := make([]string, workers)
+	privs := make([]crypto.PrivKey, workers)
+	pids := make([]peer.ID, workers)
+	for i := range dirs {
+		dirs[i] = scratch(t, "twosnap")
+		priv, pub, _ := crypto.GenerateKeyPair(crypto.Ed25519, 0)
+		privs[i] = priv
+		pids[i], _ = peer.IDFromPublicKey(pub)
+	}
+	var mu sync.Mutex
+	var brokenErrs []string
+	inPhases(sets, workers, func(w int, ps pinset) {
+		runs, broken := runTwoSnapshots(t, dirs[w], privs[w], pids[w], ps)
+		if broken != nil {
+			mu.Lock()
+			brokenErrs = append(brokenErrs, ps.Label+": "+broken.Error())
+			mu.Unlock()
+			return
+		}
+		for _, run := range runs {
+			rp.judge(sec, ps, run)
+		}
+	})
+	for _, b := range brokenErrs {
+		R.Broken("two snapshots: %s", b)
+	}
+	for _, d := range dirs {
+		os.RemoveAll(d)
+	}
+}
